@@ -280,7 +280,7 @@ pub fn c17(run: &mut Run) -> Stats {
     let tlen = if thorough { 6 } else { 5 };
     let alphabet: Vec<char> = vec!['$', '0', '1', '2', '9', '{', '}', 'n', 'x', 'é'];
     run.rule = format!(
-        "all templates over {{$ 0 1 2 9 {{ }} n x é}} of length <= {} plus all sequences of <= 4 (5 thorough) tokens from {{$ $$ $0 $1 $2 $12 $9 ${{n}} ${{x}} ${{nx}} ${{ ${{}} }} {{ n é 0}} x a menu of (pattern, flags, haystack) whose match sequences cover: no match, one, adjacent, empty matches at every position incl. around multibyte characters, non-participating and named groups; replace, replace_all, replace_with, replace_all_with; non-trivial = the template contains a $ and the regex matches",
+        "all templates over {{$ 0 1 2 9 {{ }} n x é}} of length <= {} plus all sequences of <= 4 (5 thorough) tokens from {{$ $$ $0 $1 $2 $12 $9 ${{n}} ${{x}} ${{nx}} ${{ ${{}} }} {{ n é 0}} plus \"$\" followed by every digit string over {{0 1 2 6 9}} of length <= 7 (9 thorough), bare or followed by x or $1, x a menu of (pattern, flags, haystack) whose match sequences cover: no match, one, adjacent, empty matches at every position incl. around multibyte characters, non-participating and named groups; replace, replace_all, replace_with, replace_all_with; non-trivial = the template contains a $ and the regex matches",
         tlen
     );
     run.assumptions = vec!["model: splice-and-expand over find_iter's own match sequence (mc/src/apichecks.rs expand_model); named lookups use the participating group (C16)".into()];
@@ -346,6 +346,31 @@ pub fn c17(run: &mut Run) -> Stats {
                 }
             }
             prevt = next;
+        }
+    }
+    // digit runs: "$" + every digit string over {0 1 2 6 9} of length <= 7 (9 thorough), bare and followed by a
+    // literal (leading zeros, references beyond the last group, the extent of the reference)
+    {
+        let digits = ['0', '1', '2', '6', '9'];
+        let dl = if thorough { 9 } else { 7 };
+        let mut seen: std::collections::HashSet<String> = templates.iter().cloned().collect();
+        let mut prevd: Vec<String> = vec!["$".to_string()];
+        for _ in 0..dl {
+            let mut next = Vec::with_capacity(prevd.len() * digits.len());
+            for p in &prevd {
+                for d in digits {
+                    next.push(format!("{}{}", p, d));
+                }
+            }
+            for q in &next {
+                for suffix in ["", "x", "$1"] {
+                    let t = format!("{}{}", q, suffix);
+                    if seen.insert(t.clone()) {
+                        templates.push(t);
+                    }
+                }
+            }
+            prevd = next;
         }
     }
     let known = run.known.clone();
@@ -485,9 +510,9 @@ fn occurrences(s: &[u32], t: &[u32], eq: &dyn Fn(u32, u32) -> bool) -> Vec<(usiz
 pub fn c18(run: &mut Run) -> Stats {
     let thorough = run.thorough();
     let slen = if thorough { 4 } else { 3 };
-    let alphabet: Vec<char> = "\\^$.|?*+()[]{}-/&,aAkſ1é😀\n ".chars().collect();
+    let alphabet: Vec<char> = "\\^$.|?*+()[]{}-/&,aAkſ1é😀\n Σθ".chars().collect();
     run.rule = format!(
-        "all strings s over {{14 syntax characters, - / & , a A k U+017F 1 é U+1F600 LF space}} of length <= {} x all 24 flag sets ({{i,m,s}} x {{none,u,v}}) x haystacks built from s (s, s.s, x.s.x, every proper prefix, case-swapped s, empty, s with the last character dropped and doubled, s with each character replaced by NUL or x); non-trivial = s is non-empty and occurs in the haystack",
+        "all strings s over {{14 syntax characters, - / & , a A k U+017F 1 é U+1F600 LF space U+03A3 U+03B8}} of length <= {} x all 24 flag sets ({{i,m,s}} x {{none,u,v}}) x haystacks built from s (s, s.s, x.s.x, every proper prefix, case-swapped s, empty, s with the last character dropped and doubled, s with each character replaced by NUL or x, s with each character replaced by every member of its case class); non-trivial = s is non-empty and occurs in the haystack",
         slen
     );
     run.assumptions = vec!["occurrence model: leftmost non-overlapping substring search on code points; under i, per-character equivalence from the oracle fold tables (C10's relation)".into()];
@@ -585,6 +610,23 @@ pub fn c18(run: &mut Run) -> Stats {
                     d[k] = r;
                     let ds: String = d.iter().collect();
                     hays.push(format!("{}{}", ds, s));
+                    hays.push(ds);
+                }
+            }
+            // case variants: s with one character replaced by each member of its case class (either mode)
+            for k in 0..sc.len() {
+                let mut partners = fold::class_of(sc[k] as u32, true);
+                partners.extend(fold::class_of(sc[k] as u32, false));
+                partners.sort();
+                partners.dedup();
+                for p in partners {
+                    if p == sc[k] as u32 {
+                        continue;
+                    }
+                    let mut d = sc.clone();
+                    d[k] = char::from_u32(p).unwrap();
+                    let ds: String = d.iter().collect();
+                    hays.push(format!("x{}", ds));
                     hays.push(ds);
                 }
             }
